@@ -11,6 +11,10 @@
   declaration order). Defects that are kept (known findings) are mirrored:
   `lt` between instances of two distinct classes with one `__qualname__` never terminates (F39).
 
+  The model has no state: every function below takes the *contents* of its operands. For values
+  with a history (hashed / compared, then written through notifying or non-notifying paths) the
+  correspondence rule is: the code answers as the model does on the contents after the writes.
+
   Numbers are exact dyadic rationals `m / 2^e` carrying their Python type as a tag (bool / int /
   float alias each other exactly as in Python); no `Float`. Strings are lists of code points.
   The type-rank table (`Env.rankOf`) is regenerated from `_type_order` by translate/t_c06.py
